@@ -264,16 +264,47 @@ def _only_fresh_arguments(index, sm_, fn: str, pname: str) -> bool:
         return False
     pos = names.index(pname) if pname in names else None
     calls = 0
+
+    def is_fresh(v):
+        return isinstance(v, (ast.Dict, ast.List, ast.Set, ast.DictComp, ast.ListComp, ast.SetComp)) or (
+            isinstance(v, ast.Call) and isinstance(v.func, ast.Name) and v.func.id in ("dict", "list", "set"))
+
+    def own_local(fnode, name):
+        """`name` is a plain local of the calling function, bound only by assignments of freshly built containers"""
+        if fnode is None:
+            return False
+        a_ = fnode.args
+        if name in [x.arg for x in a_.posonlyargs + a_.args + a_.kwonlyargs] or (a_.vararg and a_.vararg.arg == name):
+            return False
+        binds = 0
+        for x in ast.walk(fnode):
+            if isinstance(x, (ast.Global, ast.Nonlocal)) and name in x.names:
+                return False
+            if isinstance(x, ast.Name) and x.id == name and isinstance(x.ctx, (ast.Store, ast.Del)):
+                binds += 1
+        ok = 0
+        for x in ast.walk(fnode):
+            if isinstance(x, ast.Assign) and len(x.targets) == 1 and isinstance(x.targets[0], ast.Name) and x.targets[0].id == name and is_fresh(x.value):
+                ok += 1
+            elif isinstance(x, ast.AnnAssign) and isinstance(x.target, ast.Name) and x.target.id == name and x.value is not None and is_fresh(x.value):
+                ok += 1
+        return binds > 0 and binds == ok
+
     for m in index.modules.values():
         called = set()
+        owner = {}
+        for f_ in ast.walk(m.tree):
+            if isinstance(f_, (ast.FunctionDef, ast.AsyncFunctionDef)):
+                for x in ast.walk(f_):
+                    if isinstance(x, ast.Call):
+                        owner[id(x)] = f_  # the innermost function wins (walk visits outer functions first)
         for nd in ast.walk(m.tree):
             if isinstance(nd, ast.Call) and isinstance(nd.func, ast.Name) and nd.func.id == fn:
                 called.add(id(nd.func))
                 if any(isinstance(x, ast.Starred) for x in nd.args) or any(k.arg is None for k in nd.keywords):
                     return False
                 v = nd.args[pos] if pos is not None and pos < len(nd.args) else next((k.value for k in nd.keywords if k.arg == pname), None)
-                fresh = isinstance(v, (ast.Dict, ast.List, ast.Set, ast.DictComp, ast.ListComp, ast.SetComp)) or (
-                    isinstance(v, ast.Call) and isinstance(v.func, ast.Name) and v.func.id in ("dict", "list", "set"))
+                fresh = is_fresh(v) or (isinstance(v, ast.Name) and own_local(owner.get(id(nd)), v.id))
                 if not fresh:
                     return False
                 calls += 1
@@ -396,7 +427,7 @@ def check_shared_state(ctx: Ctx, files: List[str]):
         n3 += 1
         for e, pname, tgt in _input_mutations(sm_.qual, sm_):
             fn = sm_.qual.split(":")[-1]
-            if _only_fresh_arguments(ctx.index, sm_, fn, pname):
+            if tgt[0] in ("sub", "attr") and tgt[1] == ("param", pname) and _only_fresh_arguments(ctx.index, sm_, fn, pname):
                 continue  # a private helper finishing a container every caller builds for it on the spot: nobody else holds that object
             ctx.bad("G.3", sm_.module.relpath, fn, f"{show(e.term)[:70]}",
                     f"{fn} changes its argument `{pname}` in place ({show(tgt)[:60]}): the caller's object is different after the call, so "
